@@ -324,7 +324,10 @@ class CentrallyBin(Factory, Container):
 
     @inheritdoc(Container)
     def zero(self):
-        return CentrallyBin([c for c, v in self.bins], self.quantity, self.value, self.nanflow.zero())
+        out = CentrallyBin([c for c, v in self.bins], self.quantity, self.value, self.nanflow.zero())
+        # in immutable form (from ed/JSON) value is None and the constructor leaves bins unset
+        out.bins = [(c, v.zero()) for c, v in self.bins]
+        return out.specialize()
 
     @inheritdoc(Container)
     def __add__(self, other):
